@@ -9,13 +9,20 @@
 // whether the vector is admissible (Lifecycle.admissible). Monitors: hang (call not back after 10x its
 // timeout), slow repeat (a non-effective Start/Stop taking > 1 s), return value outside the table,
 // stop overrunning its timeout, after Stop returned nil: actors still alive / guardClosedSignal open /
-// scheduler running / goroutines of vivid or go-quartz that persist.
+// scheduler running / goroutines of vivid or go-quartz that persist. First of all: Start || Stop (|| Stop / cancel / Start)
+// on systems WITH metrics (the start-up chain takes actorOfLock under statusLock; no TCP port) under a 3 s
+// watchdog: a lock-order deadlock between System methods is reported as c07-start-stop-deadlock, naming the lock
+// held / wanted at each site (bookkeeping of the instrumented locks in vsched) and the blocked call paths.
 //
 // Tier B - lock-step: system.go and system_chains.go are instrumented from the current source (profile
 // "system") and run under the controlled scheduler (DFS with preemption bound + random schedules) on systems
 // without user actors; termination of the root actor is an explicit environment step of the schedule. One
 // case = one complete schedule; every step's (label, status, s.Context != nil, ctx cancelled, #guard
 // goroutines) plus the final per-call results and verdict are replayed on System/Lifecycle.v.
+// statusLock AND actorOfLock are controlled locks; part of the runs use metrics-enabled systems, whose start-up
+// chain calls System.ActorOf under statusLock. A run in which every thread is parked in front of a lock whose
+// holder is parked in front of a lock is reported as c07-start-stop-deadlock with the cycle and the schedule.
+// Per run, the lock operations of every thread are one case (kind 3) for the lock view System/LockOrder.v.
 package main
 
 import (
@@ -1383,6 +1390,7 @@ func main() {
 	f := lib.ParseFlags()
 	o := lib.NewOut(f.Out)
 	h := &H{o: o}
+	vsched.TrackRealLocks.Store(true) // the real-time watchdog names the lock sites of a lock-order deadlock
 	r := lib.NewRand(f.Seed)
 	thorough := f.Tier == "thorough"
 	ra, rb := r.Fork(), r.Fork()
